@@ -180,7 +180,7 @@ class ClassInfo:
 class Repo:
   """Parsed view of the working tree of the repository."""
 
-  def __init__(self, root='/repo'):
+  def __init__(self, root='/repo', flatten=True):
     self.root = root
     self.modules = {}
     self.classes = {}
@@ -210,6 +210,16 @@ class Repo:
             f = FuncInfo(m, st)
             self.functions[f.qualname] = f
     self.consulted = set()
+    self.flattened = {}
+    if flatten:
+      import json
+      from mmsa import canon, inline
+      self.canonicalised_calls = canon.canonicalise_repo(self)
+      with open(os.path.join(os.path.dirname(os.path.abspath(__file__)), 'pinned_names.json')) as fh:
+        pinned = set(json.load(fh))
+      self.flattened = inline.flatten_repo(self, pinned)
+      from mmsa import lower
+      self.lowered = lower.lower_repo(self)
 
   # -- anchors ---------------------------------------------------------------
   def module(self, name):
